@@ -297,6 +297,13 @@ fn bvec_routes_from_cmp<M: MaskLike>(extra: Vec<Route<M>>) -> Vec<Route<M>> {
 }
 
 /// BVec3A / BVec4A observationally identical to BVec3 / BVec4 up to the printed type name.
+/// Display / Debug under formatter flags (width, fill, alignment, precision, alternate): part of "observationally identical"
+macro_rules! flagged {
+    ($x:expr, $from:expr, $to:expr) => {
+        vec![format!("{:8}", $x), format!("{:>9}", $x), format!("{:.2}", $x), format!("{:*^7.3}", $x), format!("{:08}", $x), format!("{:#?}", $x).replace($from, $to), format!("{:12?}", $x).replace($from, $to), format!("{:#}", $x)]
+    };
+}
+
 fn twin_masks(mon: &mut Monitor) {
     if let Some(mut c) = mon.begin("BVec3A~BVec3,BVec4A~BVec4", "twin observers") {
         for val in 0..8u32 {
@@ -309,6 +316,10 @@ fn twin_masks(mon: &mut Monitor) {
                 if !same {
                     c.violation("twin_mismatch", &[], format!("lanes {:?} via {}", b, r.name), format!("{:?}", a), format!("{:?}", p), "BVec3A must be observationally identical to BVec3".into());
                 }
+                let (fa, fp) = (flagged!(a, "BVec3A", "BVec3"), flagged!(p, "BVec3A", "BVec3"));
+                if fa != fp {
+                    if c.wants_witness("twin_mismatch", &["format flags"]) { c.violation("twin_mismatch", &["format flags"], format!("lanes {:?} via {}", b, r.name), format!("{:?}", fa), format!("{:?}", fp), "Display/Debug with width / precision / fill / alternate flags must match BVec3".into()); } else { c.st.violations += 1; }
+                }
             }
         }
         for val in 0..16u32 {
@@ -320,6 +331,10 @@ fn twin_masks(mon: &mut Monitor) {
                 let same = a.bitmask() == p.bitmask() && a.any() == p.any() && a.all() == p.all() && <[bool; 4]>::from(a) == <[bool; 4]>::from(p) && <[u32; 4]>::from(a) == <[u32; 4]>::from(p) && format!("{}", a) == format!("{}", p) && format!("{:?}", a).replace("BVec4A", "BVec4") == format!("{:?}", p) && (0..4).all(|i| a.test(i) == p.test(i));
                 if !same {
                     c.violation("twin_mismatch", &[], format!("lanes {:?} via {}", b, r.name), format!("{:?}", a), format!("{:?}", p), "BVec4A must be observationally identical to BVec4".into());
+                }
+                let (fa, fp) = (flagged!(a, "BVec4A", "BVec4"), flagged!(p, "BVec4A", "BVec4"));
+                if fa != fp {
+                    if c.wants_witness("twin_mismatch", &["format flags"]) { c.violation("twin_mismatch", &["format flags"], format!("lanes {:?} via {}", b, r.name), format!("{:?}", fa), format!("{:?}", fp), "Display/Debug with width / precision / fill / alternate flags must match BVec4".into()); } else { c.st.violations += 1; }
                 }
             }
         }
